@@ -4,7 +4,7 @@
 From Coq Require Import Permutation.
 From Eino Require Import Base.Util Base.FMUniverse Model.FieldMap Proofs.FieldMapOverlap
   Model.FieldMapOwn Proofs.FieldMapAssign Proofs.FieldMapComm Proofs.FieldMapGetPut Proofs.FieldMapRun
-  Proofs.FieldMapOwn Model.FieldMapPromote Proofs.FieldMapPromote Proofs.FieldMapPartition Proofs.FieldMapFanIn.
+  Proofs.FieldMapOwn Model.FieldMapPromote Proofs.FieldMapPromote Proofs.FieldMapPartition Proofs.FieldMapFanIn Model.FieldMapClean Proofs.FieldMapClean.
 
 (* ---------------------------------------------------------------- overlap detection *)
 
@@ -452,6 +452,32 @@ Example fanin_order_independent_nonvacuous :
     Forall (fun ms' => merge_convert env T ms' ss = Ok v)
       [[m1; m2; m3]; [m1; m3; m2]; [m2; m1; m3]; [m2; m3; m1]; [m3; m1; m2]; [m3; m2; m1]].
 Proof. vm_compute. do 5 eexists. repeat split; repeat constructor. Qed.
+
+(* The second conclusion of mapped_get_put ("everything else zero-valued") as the correspondence checks
+   it on the value the IMPLEMENTATION returned: the decision procedure [clean_b] (Model/FieldMapClean.v)
+   answers true only if EVERY path that overlaps no target path reads the zero value of its static type
+   in that value — an exhaustive check, not one on probe paths. *)
+Theorem zero_clause_exhaustive :
+  forall (fuel : nat) (env : senv) (t : ty) (v : val) (W : list path) (q : path) (z : val),
+    clean_b fuel env t v W = true ->
+    (forall p, In p W -> conflict q p = false) -> q <> [] ->
+    take_path env v q = Ok z ->
+    exists st b, extract_ty env t q = SOk st b /\ z = zero st.
+Proof. exact clean_b_read_zero. Qed.
+Print Assumptions zero_clause_exhaustive.
+
+(* non-vacuity: a value with an instantiated pointer, a map entry and an any-hole along the targets passes;
+   the same value with one stray field does not *)
+Example zero_clause_exhaustive_nonvacuous :
+  let env : senv := [(1%N, [(2%N, (true, TInt)); (3%N, (true, TPtr (TStruct 1))); (4%N, (true, TAny)); (5%N, (true, TMap true TInt))])] in
+  let W := [[3%N; 2%N]; [4%N; 7%N; 8%N]; [5%N; 9%N]] in
+  let v := VStruct 1 [(3%N, VPtr (TStruct 1) (Some (VStruct 1 [(2%N, VInt 5)])));
+                      (4%N, VMap true TAny (Some [(7%N, VMap true TAny (Some [(8%N, VStr "s")]))]));
+                      (5%N, VMap true TInt (Some [(9%N, VInt 0)]))] in
+  clean_b 8 env (TStruct 1) v W = true
+  /\ clean_b 8 env (TStruct 1) (VStruct 1 [(2%N, VInt 1); (3%N, VPtr (TStruct 1) (Some (VStruct 1 [(2%N, VInt 5)])))]) [[3%N; 2%N]] = false
+  /\ take_path env v [3%N; 3%N] = Ok (VPtr (TStruct 1) None).
+Proof. vm_compute. repeat split. Qed.
 
 (* ---------------------------------------------------------------- promoted fields (embedded structs) *)
 
